@@ -59,7 +59,10 @@ def _inv_stub(kind, real):
         if symbolic_active() and _has_obj(mat) and is_sym(mat):
             A = symrun.symarr(mat)
             m = A.shape[0]
-            key = (m,) + tuple(e.t.get_id() for e in A.ravel().tolist())
+            # keyed by the SIMPLIFIED entries: `x / 1` and `x` are the same argument (the simplified terms are
+            # kept alive in the cache entry, z3 ids are reused after garbage collection)
+            simp = [z3.simplify(e.t) for e in A.ravel().tolist()]
+            key = (m,) + tuple(t.get_id() for t in simp)
             ent = _KCACHE.get(key)
             if ent is None:
                 # inv is a FUNCTION of its argument: a syntactically identical matrix gets the
@@ -69,7 +72,7 @@ def _inv_stub(kind, real):
                 for i in range(m):
                     for j in range(m):
                         K[i, j] = SymReal(z3.Real("Kinv!%d!%d_%d" % (idx, i, j)))
-                ent = _KCACHE[key] = (A, K)
+                ent = _KCACHE[key] = (A, K, simp)
             CALLS["inv"].append({"kind": kind, "A": ent[0], "K": ent[1]})
             return ent[1].copy()
         if _has_obj(mat):
@@ -469,6 +472,8 @@ VARIANTS = {
     "universal+ext": ("Krige", True, "generic1", 1),
     "biased+drift": ("Krige", False, "generic1", 0),
     "universal2": ("Universal", True, "generic2", 0),
+    # ordinary system with a user mean (general Krige class, unbiased by default; what `ordinary.mean = m` gives)
+    "ordinary+mean": ("Krige", True, None, 0),
 }
 
 
